@@ -259,6 +259,9 @@ class Subs(Base):
         self.percall = []
         self.inplan = []
 
+    def snapshot(self, sess):
+        return {"percall": len(self.percall), "inplan": len(self.inplan)}
+
     def call_args(self, d):
         return {"all": [lambda n, doc: self.percall.append(n)]}, {"purpose": "x"}
 
